@@ -199,6 +199,13 @@ func (e *Engine) verifyContract(ct *Contract) (x *Exec, err error) {
 	}()
 	st0 := x.newState()
 	x.initGhosts(st0, ct.PkgPath)
+	if fn.Synthetic == "package initializer" && fn.Pkg != nil {
+		// the initialiser is verified for its first (only) run: the guard is false
+		if g := fn.Pkg.Var("init$guard"); g != nil {
+			bt := types.Typ[types.Bool]
+			x.store(st0, &Addr{Kind: addrObj, Base: x.globalRef(g), Obj: bt, FT: bt}, Val{T: bt, L: []Term{TFalse}})
+		}
+	}
 	names := map[string]Val{}
 	var args []Val
 	for _, p := range fn.Params {
@@ -248,6 +255,9 @@ func (e *Engine) verifyContract(ct *Contract) (x *Exec, err error) {
 				}
 			}
 			x.addObl(name, "ensures", cl.Text, clauseProps(cl, ct), OblPart{NegGoal: And(r.reach, Not(g)), NAssume: len(x.c.Assumes), Where: fmt.Sprintf("return #%d", ri), Cex: cex}, false)
+			if cl.Kind == "refute" {
+				x.obls[name].Search = true
+			}
 		}
 		if ct.HasAssigns {
 			x.frameObligations(ct, fn, env, entry, r)
@@ -351,6 +361,8 @@ func (x *Exec) frameObligations(ct *Contract, fn *ssa.Function, env *specEnv, en
 		keys = append(keys, k)
 	}
 	sort.Strings(keys)
+	var frameViol []Term
+	var frameKeys []string
 	for _, k := range keys {
 		if strings.HasPrefix(k, "slice:") || strings.HasPrefix(k, "map:") {
 			continue // backing stores are not framed (noted)
@@ -370,16 +382,20 @@ func (x *Exec) frameObligations(ct *Contract, fn *ssa.Function, env *specEnv, en
 			continue
 		}
 		rr := x.c.Fresh("frame_r", SRef)
-		conds := []Term{r.reach, Op("bvult", SBool, rr, x.c.Named("ctr0", SRef))}
+		conds := []Term{Op("bvult", SBool, rr, x.c.Named("ctr0", SRef))}
 		if c != nil {
 			for _, b := range c.refs {
 				conds = append(conds, Not(Eq(rr, b)))
 			}
 		}
 		conds = append(conds, Not(Eq(Select(before, rr), Select(after, rr))))
+		frameViol = append(frameViol, x.c.Define("frame", And(conds...)))
+		frameKeys = append(frameKeys, k)
+	}
+	if len(frameViol) > 0 {
 		name := fmt.Sprintf("%s#assigns", x.fname())
 		x.addObl(name, "assigns", "only the locations named in the assigns clause change (objects existing at entry)", ct.Props,
-			OblPart{NegGoal: And(conds...), NAssume: len(x.c.Assumes), Where: k}, false)
+			OblPart{NegGoal: And(r.reach, Or(frameViol...)), NAssume: len(x.c.Assumes), Where: fmt.Sprintf("return; heap keys %v", frameKeys)}, false)
 	}
 	// ghosts
 	allowed := map[string]bool{}
